@@ -509,13 +509,36 @@ class FamWorld:
             return "skip:L2"
         if name in seqops.NEEDS_NONEMPTY_ABS and seqops._abs_count(s) == 0:
             return "skip:empty"
+        judge = self.prop == "C16" and (fam.it is None or not fam.it["dirty"])
+        before = None
+        if judge:
+            try:
+                before = observe.canon_value(s)
+            except Unreadable:
+                judge = False
         _, e = _call(OPS[name][2], s, ev.get("args", {}))
         if e is not None:
             raise seqops_Foreign(f"{name}:{type(e).__name__}")
         self.perturbations += 1
         self.stats[f"fault/{name}"] += 1
+        if judge:
+            self._value_still(fam, s, before, name)
         self._after_step(fam, name)
         return "ok"
+
+    def _value_still(self, fam, s, before, opname):
+        """A read of a copy / piece must show the value it was derived with (or last given by its own operations), through
+        both views: a view that is materialised late from something the other party has meanwhile changed is aliasing too."""
+        try:
+            ae, ad, re_, rd = canon_views(s)
+        except Unreadable as u:
+            raise _V(Violation("ALIASED", f"{opname} on family #{fam.index} ({fam.kind}, {fam.route}): sequence unreadable: {u}",
+                               {"route": fam.route, "op": opname, "kind": "latent"}))
+        if (ae, ad) != (re_, rd) or (ae, ad) != before:
+            d = first_diff(list(before), [ae, ad]) or first_diff([ae, ad], [re_, rd])
+            raise _V(Violation("ALIASED", f"{opname} on family #{fam.index} ({fam.kind}, {fam.route}) shows a value that differs from "
+                               f"the one the family held before the read (its two views now: abs {len(ae)} events / rel {len(re_)} events): {d}"[:700],
+                               {"route": fam.route, "op": opname, "kind": "latent"}))
 
     def _iter(self, fam, ev):
         op = ev["op"]
@@ -709,6 +732,26 @@ class FamWorld:
                 v = self.apply({"op": "iter_close", "fam": f.index}, self.ev_index + 1)
                 if v is not None:
                     return v
+        if self.prop == "C16" and not self.foreign:
+            # final audit: read both views of every sequence of every family through the real accessors; what they show
+            # must be the value the family was left with (catches views that are materialised lazily from another party)
+            for f in self.fams:
+                for s in f.seqs():
+                    try:
+                        before = observe.canon_value(s)
+                    except Unreadable:
+                        continue
+                    _, e1 = _call(lambda: s.abs)
+                    _, e2 = _call(lambda: s.rel)
+                    if e1 is not None or e2 is not None:
+                        continue   # readability is C04's business
+                    try:
+                        self._value_still(f, s, before, "final-audit")
+                    except _V as v:
+                        v.v.event_index = self.ev_index + 1
+                        self.log.add("final-audit", "viol", v.v.cls)
+                        return v.v
+            self.stats["reach_audit/final_audits"] += 1
         return None
 
 
